@@ -86,6 +86,9 @@ type c12Transfer struct {
 type c12Case struct {
 	Accept   c12Accept   `json:"accept"`
 	Transfer c12Transfer `json:"transfer"`
+	// Later: the emulator keeps the values of every UE while it establishes the sessions of the following UEs; so
+	// many further extractions (of another, fixed session) happen before the reported values are looked at again
+	Later int `json:"later_sessions,omitempty"`
 }
 
 // ---------------------------------------------------------------- builders
@@ -404,7 +407,18 @@ func genTransfer(t *rapid.T) c12Transfer {
 	return x
 }
 
-func genC12(t *rapid.T) c12Case { return c12Case{Accept: genAccept(t), Transfer: genTransfer(t)} }
+func genC12(t *rapid.T) c12Case {
+	c := c12Case{Accept: genAccept(t), Transfer: genTransfer(t)}
+	switch rapid.IntRange(0, 19).Draw(t, "later_kind") {
+	case 0, 1, 2, 3, 4, 5:
+		c.Later = rapid.IntRange(1, 4).Draw(t, "later")
+	case 6:
+		c.Later = rapid.SampledFrom([]int{255, 256, 257, 300, 1023, 1025}).Draw(t, "later_many")
+	case 7:
+		c.Later = rapid.IntRange(5, 1200).Draw(t, "later_any")
+	}
+	return c
+}
 
 // ---------------------------------------------------------------- calling the extractors safely
 
@@ -544,6 +558,19 @@ func c12Oracle(c c12Case) ev.Verdict {
 	if !bytes.Equal(upf, x.UPF) {
 		v.Key, v.Err = "DecodeTransfer:wrong-upf", fmt.Errorf("UPF address %v extracted, the network encoded %v (transfer %x)", upf, net.IP(x.UPF), tr)
 		return v
+	}
+	if c.Later > 0 {
+		other := c12Corpus()[0]
+		for i := 0; i < c.Later; i++ {
+			_, _, _ = callNAS(c, other.NAS)
+			_, _, _, _ = callTransfer(c, other.Transfer)
+		}
+		v.Classes = append(v.Classes, "retained/later-sessions="+bucket(c.Later))
+		if !bytes.Equal(ip, a.UEIP) || !bytes.Equal(upf, x.UPF) {
+			v.Key = "retained:reported-values-changed-by-later-extractions"
+			v.Err = fmt.Errorf("after %d further sessions were extracted the values reported for this session read UE %v / UPF %v, the network encoded %v / %v", c.Later, ip, upf, net.IP(a.UEIP), net.IP(x.UPF))
+			return v
+		}
 	}
 	return v
 }
